@@ -17,8 +17,11 @@ import (
 
 	"github.com/teleport-network/teleport/x/xibc/exported"
 
+	bsctypes "github.com/teleport-network/teleport/x/xibc/clients/light-clients/bsc/types"
+
 	"verif/harness/kit"
 	"verif/harness/rec"
+	"verif/harness/sim/bscsim"
 )
 
 func TestMain(m *testing.M) { rec.Main(m) }
@@ -132,6 +135,9 @@ func (w *world) act(t *rapid.T, cl *client, action, to, variant string) actResul
 		in.Cons = w.newInst(t, u, p).Cons
 		out.Variant = "wrongcons(" + u + ")"
 	}
+	if variant == "degenerate" {
+		out.Variant = "degenerate(" + w.degenerate(t, in) + ")"
+	}
 	content := makeContent(action, cl.name, in.CS, in.Cons)
 	before := w.xibc()
 	prev := clientKVs(before, cl.name)
@@ -220,6 +226,9 @@ func (w *world) drawVariant(t *rapid.T, action, to string) string {
 	if action == "toggle" && w.listed[kfToggleOld] {
 		return "plain" // toggles do not initialise the new type at all while that finding is listed
 	}
+	if to == BSC && rapid.Bool().Draw(t, "degenerateContent") {
+		return "degenerate"
+	}
 	if wrongConsAccepted(action, to) {
 		key := kfWrongCons
 		if to == TM {
@@ -231,6 +240,33 @@ func (w *world) drawVariant(t *rapid.T, action, to string) string {
 		}
 	}
 	return "wrongcons"
+}
+
+// degenerate rewrites the content of a BSC instance into one its client type cannot be initialised from although it is
+// correctly sealed and passes stateless validation: the either/or oracle of act() then demands "rejected and nothing changed"
+// or "installed and usable" - never an accepted client that lacks what its type needs.
+func (w *world) degenerate(t *rapid.T, in *inst) string {
+	s := in.bsc
+	g := s.genesis
+	// (an epoch header announcing NO validators is not in the list: like upstream Parlia the client takes the empty list at its
+	// word, and no continuation of such a chain is defined against which "usable" could be judged)
+	kind := rapid.SampledFrom([]string{"validator-bytes-not-multiple-of-20", "not-an-epoch-header"}).Draw(t, "degenerate_kind")
+	var vanity [32]byte
+	copy(vanity[:], g.Extra[:32])
+	switch kind {
+	case "validator-bytes-not-multiple-of-20":
+		g.Extra = bscsim.BuildExtra(vanity, append(bscsim.AddrBytes(s.nextVals), rbytes(t, "stray_bytes", rapid.IntRange(1, 19).Draw(t, "stray"))...))
+	default:
+		g.Number++
+	}
+	k := s.keys[g.Number%uint64(len(s.keys))]
+	g.Coinbase = k.Addr
+	bscsim.Seal(g, k, s.chainID)
+	cs := in.CS.(*bsctypes.ClientState)
+	cs.Header = *g.ToProto()
+	in.Height = cs.Header.Height
+	in.Cons = &bsctypes.ConsensusState{Timestamp: g.Time, Height: cs.Header.Height, Root: g.Root.Bytes()}
+	return kind
 }
 
 // invalidProposal runs one proposal that the property requires to fail, and checks that nothing changed.
